@@ -64,12 +64,10 @@ theorem trySexagesimal_wf (tag : Nat) (st : St) (v : Fl) (u p : Bool) (st' : St)
 theorem parseNumberOrSpecial_wf (tag : Nat) (st : St) (v : Fl) (u p : Bool) (st' : St)
     (h : parseNumberOrSpecial tag st = .ok ((v, u, p), st')) : WF F v := by
   unfold parseNumberOrSpecial at h
-  obtain ⟨isInf, _, h⟩ := bind_ok h
   split at h
   · obtain ⟨⟨p1, r1⟩, _, h⟩ := bind_ok h
     cases h; trivial
-  · obtain ⟨isNan, _, h⟩ := bind_ok h
-    split at h
+  · split at h
     · obtain ⟨⟨p1, r1⟩, _, h⟩ := bind_ok h
       cases h; trivial
     · obtain ⟨sx, hsx, h⟩ := bind_ok h
